@@ -213,9 +213,9 @@ fn check_mode<S: anstream::stream::RawStream>(mode: &str, s: &AutoStream<S>, ter
             format!("stream built with {mode} reports current_choice() = {got:?}, expected {:?}", expected_choice(mode)),
         ));
     }
-    if s.is_terminal() != terminal {
-        return Err(viol("wrong-is-terminal", format!("is_terminal() = {} for a writer that is {}a terminal", s.is_terminal(), if terminal { "" } else { "not " })));
-    }
+    // (is_terminal() is deliberately not judged here: which streams count as terminals is C09's
+    // business, C08 is about what a mode does and which mode is reported)
+    let _ = terminal;
     Ok(())
 }
 
